@@ -1,10 +1,13 @@
 #!/bin/sh
-# Self-test of the static footprint extraction of C19 (not a registered check).
-#   tools/gofootprint_selftest.sh            mutants through ./check C19, harmless edits through the static part only
-#   FULL=1 tools/gofootprint_selftest.sh     everything through ./check C19 (about 3 minutes each)
+# Self-test of the static extractions of tools/gofootprint (not a registered check):
+#   the footprint tables of C19 (late file IndepStatic.v) and the aliasing tables of C18 / C17 (late file AliasStatic.v).
+#   tools/gofootprint_selftest.sh            seeded changes through ./check <property>, harmless edits through the static part only
+#   FULL=1 tools/gofootprint_selftest.sh     everything through ./check
 #   STATIC=1 tools/gofootprint_selftest.sh   everything through the static part only (seconds each)
+#   PART=c19 | PART=c18                      only one of the two parts (default: both)
 # It edits the library worktree $VERIF_REPO (default /repo) and restores it with `git checkout -- .` after every step:
-# run it against a scratch worktree.  Results: build/selftest/footprint.txt (one line per edit) and build/selftest/<name>.log.
+# run it against a scratch worktree.  Results: build/selftest/footprint.txt (one line per edit and property, then the
+# differences in words) and build/selftest/<name>-<property>.log.
 set -u
 here=$(cd "$(dirname "$0")/.." && pwd)
 repo=${VERIF_REPO:-/repo}
@@ -21,10 +24,10 @@ fi
 restore() { git -C "$repo" checkout -- . ; }
 trap restore EXIT INT TERM
 
-static_only() {  # regenerate the tables, rebuild what depends on them, compile the late file; prints the words
-  python3 - "$here" <<'EOF'
-import importlib.machinery, importlib.util, json, os, subprocess, sys
-root = sys.argv[1]
+static_only() {  # <late file>: regenerate the tables, rebuild what depends on them, compile the late file; prints the words
+  python3 - "$here" "$1" <<'EOF'
+import importlib.machinery, importlib.util, json, os, re, subprocess, sys
+root, late = sys.argv[1], sys.argv[2]
 loader = importlib.machinery.SourceFileLoader('check', os.path.join(root, 'check'))
 spec = importlib.util.spec_from_loader('check', loader)
 drv = importlib.util.module_from_spec(spec)
@@ -32,16 +35,12 @@ sys.modules['check'] = drv
 loader.exec_module(drv)
 rc, out = drv.run([sys.executable, os.path.join(root, 'tools', 'genparams.py'), drv.REPO, os.path.join(drv.COQ, 'Params.v')])
 print(out.strip())
-rc, out = drv.run(['timeout', '3000', 'make', '-j8'], cwd=drv.COQ)
+rc, out = drv.run(['timeout', '3000', 'make', '-k', '-j8'], cwd=drv.COQ)
 import footdiff
 if rc != 0:
-    import re
-    m = re.search(r'File "\./(\w+\.v)", line (\d+)', out)
-    print('STATIC: COMMON BUILD BROKEN at %s (an obligation of the common build that computes on Params.v; ./check reports it for every property); static differences:' % (m.group(1) + ' line ' + m.group(2) if m else '?'))
-    for d in footdiff.differences(drv)[0]:
-        print('  - ' + d['words'] + '  [lemma ' + d['lemma'] + ']')
-    sys.exit(3)
-res = footdiff.run_late(drv, 'C19', ['IndepStatic.v'])
+    broken = sorted(set(re.findall(r'File "\./(\w+\.v)", line \d+', out)))
+    print('(common build: %s no longer compile(s): an older obligation that computes on Params.v; reported through the stale files of the property)' % ', '.join(broken))
+res = footdiff.run_late(drv, 'selftest', [late])
 if res['ok']:
     print('STATIC: ok (%.1fs)' % res['seconds'])
     sys.exit(0)
@@ -52,71 +51,104 @@ sys.exit(1)
 EOF
 }
 
-run_one() {  # name, expectation (raise|quiet), mode (full|static)
-  name=$1; expect=$2; mode=$3
-  log="$out/$name.log"
+run_one() {  # name, expectation (raise|quiet), mode (full|static), late file, properties...
+  name=$1; expect=$2; mode=$3; late=$4; shift 4
   if [ "$mode" = full ]; then
-    timeout 1500 ./check C19 > "$log" 2>&1
-    rc=$?
-    viol=$(grep -c '^VIOLATION' "$log")
-    words=""
-    for r in $(grep '^VIOLATION' "$log" | sed 's/.*replay=\([^ ]*\).*/\1/'); do
-      python3 - "$r" >> "$log" <<'EOF'
-import json, sys
+    for prop in "$@"; do
+      log="$out/$name-$prop.log"
+      timeout 1500 ./check "$prop" > "$log" 2>&1
+      rc=$?
+      viol=$(grep -c '^VIOLATION' "$log")
+      for r in $(grep '^VIOLATION' "$log" | sed 's/.*replay=\([^ ]*\).*/\1/'); do
+        python3 - "$r" >> "$log" <<'EOF'
+import json, re, sys
 r = json.load(open(sys.argv[1]))
 st = r.get('static_explanation') or r
 print('--- static part of %s (kind=%s case=%s) ---' % (sys.argv[1], r.get('kind'), r.get('case')))
-for k in ('lemma', 'failing_lemmas'):
-    if r.get(k): print('%s: %s' % (k, r[k]))
-if st.get('what'): print(st['what'])
+lem = r.get('failing_lemmas')
+if not lem and st.get('what'):
+    m = re.search(r'failing: ([^)]*)\)', st['what'])
+    lem = m.group(1).split(', ') if m else None
+if not lem:
+    lem = sorted(set(re.findall(r'\[lemma (\w+)', ' '.join(st.get('difference_in_words') or []))))
+print('LEMMAS: ' + ','.join(lem or []))
 for w in st.get('difference_in_words') or []:
     print('  - ' + w)
 EOF
+      done
+      nstat=$(grep '^  - ' "$log" | sort -u | wc -l)
+      lemmas=$(grep '^LEMMAS: ' "$log" | head -1 | sed 's/^LEMMAS: //')
+      suffix=$(grep '^VIOLATION' "$log" | grep -c 'no-failing-input-found')
+      mism=$(grep -o '[0-9]* mismatches' "$log" | head -1)
+      verdict=ok
+      case "$prop" in
+        C17|C18|C19)
+          if [ "$expect" = raise ] && [ "$nstat" -eq 0 ]; then verdict=MISSED-STATICALLY; fi ;;
+        *) verdict="(no static part: dynamic result only)" ;;
+      esac
+      if [ "$expect" = quiet ] && { [ "$rc" -ne 0 ] || [ "$nstat" -ne 0 ]; }; then verdict=FALSE-ALARM; fi
+      echo "$name | ./check $prop exit=$rc | $mism | VIOLATION lines=$viol (no-failing-input-found: $suffix) | static differences=$nstat lemmas=$lemmas | expected: $expect | $verdict" | tee -a "$out/footprint.txt"
+      grep '^  - ' "$log" | sort -u | sed 's/^/      /' >> "$out/footprint.txt"
     done
-    nstat=$(grep -c '^  - ' "$log")
-    suffix=$(grep '^VIOLATION' "$log" | grep -c 'no-failing-input-found')
-    summary="check exit=$rc violations=$viol (with no-failing-input-found: $suffix) static differences reported=$nstat"
   else
-    static_only > "$log" 2>&1
+    log="$out/$name-static.log"
+    static_only "$late" > "$log" 2>&1
     rc=$?
     nstat=$(grep -c '^  - ' "$log")
-    summary="static exit=$rc static differences reported=$nstat $(grep '^STATIC' "$log" | head -1)"
+    verdict=ok
+    if [ "$expect" = raise ] && [ "$nstat" -eq 0 ]; then verdict=MISSED-STATICALLY; fi
+    if [ "$expect" = quiet ] && { [ "$rc" -ne 0 ] || [ "$nstat" -ne 0 ]; }; then verdict=FALSE-ALARM; fi
+    echo "$name | static part ($late) exit=$rc | static differences=$nstat $(grep '^STATIC' "$log" | head -1) | expected: $expect | $verdict" | tee -a "$out/footprint.txt"
+    grep '^  - ' "$log" | sed 's/^/      /' >> "$out/footprint.txt"
   fi
-  verdict=ok
-  if [ "$expect" = raise ] && [ "$nstat" -eq 0 ]; then verdict=MISSED; fi
-  if [ "$expect" = quiet ] && { [ "$rc" -ne 0 ] || [ "$nstat" -ne 0 ]; }; then verdict=FALSE-ALARM; fi
-  echo "$name | expected: $expect | $summary | $verdict" | tee -a "$out/footprint.txt"
-  grep '^  - ' "$log" | sed 's/^/      /' >> "$out/footprint.txt"
   restore
 }
 
 mode_mut=full; mode_harmless=static
 [ "${FULL:-0}" = 1 ] && mode_harmless=full
 [ "${STATIC:-0}" = 1 ] && mode_mut=static
+part=${PART:-all}
 
-# --- the seeded changes that must be reported
-git -C "$repo" apply "$here/seeded/C19-A/patch.diff" && run_one C19-A raise $mode_mut
-git -C "$repo" apply "$here/seeded/C19-B/patch.diff" && run_one C19-B raise $mode_mut
-if git -C "$repo" apply --check "$here/seeded/C09-A/patch.diff" 2>/dev/null; then
-  git -C "$repo" apply "$here/seeded/C09-A/patch.diff" && run_one C09-A raise $mode_mut
-else
-  # seeded/C09-A/patch.diff was made against a tree in which sorterClass_ still had defaultRanker_: the same change ported
-  git -C "$repo" apply "$here/tools/gofootprint_selftest.d/C09-A-ported.diff" && run_one C09-A-ported raise $mode_mut
+if [ "$part" = all ] || [ "$part" = c19 ]; then
+  echo "== C19: footprint tables (IndepStatic.v)" | tee -a "$out/footprint.txt"
+  # --- the seeded changes that must be reported
+  git -C "$repo" apply "$here/seeded/C19-A/patch.diff" && run_one C19-A raise $mode_mut IndepStatic.v C19
+  git -C "$repo" apply "$here/seeded/C19-B/patch.diff" && run_one C19-B raise $mode_mut IndepStatic.v C19
+  if git -C "$repo" apply --check "$here/seeded/C09-A/patch.diff" 2>/dev/null; then
+    git -C "$repo" apply "$here/seeded/C09-A/patch.diff" && run_one C09-A raise $mode_mut IndepStatic.v C19
+  else
+    # seeded/C09-A/patch.diff was made against a tree in which sorterClass_ still had defaultRanker_: the same change ported
+    git -C "$repo" apply "$here/tools/gofootprint_selftest.d/C09-A-ported.diff" && run_one C09-A-ported raise $mode_mut IndepStatic.v C19
+  fi
+  # --- further changes of the same class (static part only: seconds each)
+  for m in mutant-accessor-returns-local mutant-formatter-pool mutant-set-class-collator; do
+    git -C "$repo" apply "$here/tools/gofootprint_selftest.d/$m.diff" && run_one $m raise static IndepStatic.v
+  done
+  # --- harmless edits that must not raise anything
+  sed -i 's/\bbuffer\b/scratchCopy/g' "$repo/v4/agent/sorter.go" && run_one harmless-rename-local quiet $mode_harmless IndepStatic.v C19
+  git -C "$repo" apply "$here/tools/gofootprint_selftest.d/harmless-class-constant.diff" && run_one harmless-class-constant quiet $mode_harmless IndepStatic.v C19
+  git -C "$repo" apply "$here/tools/gofootprint_selftest.d/harmless-reader-method.diff" && run_one harmless-reader-method quiet $mode_harmless IndepStatic.v C19
 fi
 
-# --- further changes of the same class (static part only: seconds each)
-for m in mutant-accessor-returns-local mutant-formatter-pool mutant-set-class-collator; do
-  git -C "$repo" apply "$here/tools/gofootprint_selftest.d/$m.diff" && run_one $m raise static
-done
-
-# --- harmless edits that must not raise anything
-sed -i 's/\bbuffer\b/scratchCopy/g' "$repo/v4/agent/sorter.go" && run_one harmless-rename-local quiet $mode_harmless
-git -C "$repo" apply "$here/tools/gofootprint_selftest.d/harmless-class-constant.diff" && run_one harmless-class-constant quiet $mode_harmless
-git -C "$repo" apply "$here/tools/gofootprint_selftest.d/harmless-reader-method.diff" && run_one harmless-reader-method quiet $mode_harmless
+if [ "$part" = all ] || [ "$part" = c18 ]; then
+  echo "== C18 / C17: aliasing tables (AliasStatic.v)" | tee -a "$out/footprint.txt"
+  # seed and the properties to run: C18 always, and the seed's own property where it is another one
+  for sp in "C18-A C18" "C18-B C18" "C15-B C18 C15" "C16-A C18 C16" "C01-A C18 C01" "C13-B C18 C13" "C14-B C18 C14" "C15-D C18 C15" \
+            "C18-D C18" "C18-C C18" "C17-B C18 C17" "C17-D C18 C17" "C02-D C18 C02" "C09-C C18 C09" "C13-C C18 C13"; do
+    set -- $sp
+    seed=$1; shift
+    git -C "$repo" apply "$here/seeded/$seed/patch.diff" && run_one "$seed" raise $mode_mut AliasStatic.v "$@"
+  done
+  for h in H01 H08 H09 H12 H14; do
+    git -C "$repo" apply "$here/seeded/benign/$h/patch.diff" && run_one "benign-$h" quiet $mode_harmless AliasStatic.v C18
+  done
+fi
 
 # --- back to the unchanged tree
 restore
-static_only > "$out/unchanged.log" 2>&1
-echo "unchanged tree | $(grep '^STATIC' "$out/unchanged.log" | head -1)" | tee -a "$out/footprint.txt"
-if grep -q 'MISSED\|FALSE-ALARM' "$out/footprint.txt"; then exit 1; fi
+for late in IndepStatic.v AliasStatic.v; do
+  static_only "$late" > "$out/unchanged-$late.log" 2>&1
+  echo "unchanged tree | $late | $(grep '^STATIC' "$out/unchanged-$late.log" | head -1)" | tee -a "$out/footprint.txt"
+done
+if grep -q 'MISSED-STATICALLY\|FALSE-ALARM' "$out/footprint.txt"; then exit 1; fi
 exit 0
